@@ -71,7 +71,8 @@ def run(ctx):
         cl = ctx.rng.choice(CLS + [0.6, 0.999]); alt = ctx.rng.choice(ALTS)
         p0 = ctx.rng.choice([None, None, 0.0, 1.0, 0.5, ctx.rng.random()])
         kw = ctx.rng.choice([{}, {}, {"xtol": 1e-10}, {"rtol": 1e-12}, {"maxiter": 200}, {"xtol": 1e-11, "rtol": 1e-13, "maxiter": 300},
-                             {"xtol": 1e-2}, {"xtol": 2e-2, "rtol": 1e-3}, {"rtol": 1e-3}])     # loose tolerances too: legal, and must not stick
+                             {"xtol": 1e-2}, {"xtol": 2e-2, "rtol": 1e-3}, {"rtol": 1e-3},      # loose tolerances too: legal, and must not stick
+                             {"xtol": 1e-16}, {"xtol": 1e-20}, {"xtol": 1e-300, "rtol": 1e-14}, {"xtol": 0.0 + 5e-324}])   # absolute tolerances far below machine epsilon are legal for the solver
         cases.append((n, x, cl, alt, p0, kw))
     # large n with counts at and next to the ends; the arguments as fresh Python ints (distinct objects even when equal:
     # CPython shares small ints only up to 256), NumPy integer scalars, or counts computed from data
@@ -105,7 +106,7 @@ def run(ctx):
         why = None
         if not (0.0 <= lo <= hi <= 1.0):
             why = "0 <= lower <= upper <= 1 fails"
-        elif cl >= 0.5 and not (lo <= x / n + 1e-12 and x / n - 1e-12 <= hi):
+        elif cl >= 0.5 and not (lo <= x / n + 1e-12 + float(d) and x / n - 1e-12 - float(d) <= hi):      # d: slack allowed by the caller's own solver tolerances
             why = "lower <= x/n <= upper fails"
         else:
             why = certify(n, x, cl, alt, lo, hi, d)
